@@ -126,11 +126,6 @@ pub uninterp spec fn nb_sub(b: NativeBalance, c: Seq<Coin>) -> NativeBalance;
 impl NativeBalance {
     pub uninterp spec fn amt(&self, d: Seq<char>) -> nat;
     pub uninterp spec fn wf(&self) -> bool;
-    /// `balance - Vec<Coin>`: coin by coin; any underflow or missing denom is an error
-    #[verifier::external_body]
-    pub fn sub(self, amount: Vec<Coin>) -> (r: StdResult<NativeBalance>)
-        ensures r is Ok <==> nb_sub_ok(self, amount@), r is Ok ==> r->Ok_0 == nb_sub(self, amount@),
-    { unimplemented!() }
     /// saturating subtraction of one coin; error if the denom is not held at all
     #[verifier::external_body]
     pub fn sub_saturating(self, other: Coin) -> (r: StdResult<NativeBalance>)
@@ -149,6 +144,32 @@ impl NativeBalance {
     #[verifier::external_body]
     pub fn is_empty(&self) -> (r: bool)
         ensures r ==> forall|d: Seq<char>| self.amt(d) == 0
+    { unimplemented!() }
+}
+/// `balance - Vec<Coin>` (std::ops::Sub): coin by coin; any underflow or missing denom is an error
+impl SubSpecImpl<Vec<Coin>> for NativeBalance {
+    open spec fn obeys_sub_spec() -> bool { false }
+    open spec fn sub_req(self, rhs: Vec<Coin>) -> bool { true }
+    uninterp spec fn sub_spec(self, rhs: Vec<Coin>) -> StdResult<NativeBalance>;
+}
+impl core::ops::Sub<Vec<Coin>> for NativeBalance {
+    type Output = StdResult<NativeBalance>;
+    #[verifier::external_body]
+    fn sub(self, amount: Vec<Coin>) -> (r: StdResult<NativeBalance>)
+        ensures r is Ok <==> nb_sub_ok(self, amount@), r is Ok ==> r->Ok_0 == nb_sub(self, amount@),
+    { unimplemented!() }
+}
+/// `balance - Coin`: the same with a single coin
+impl SubSpecImpl<Coin> for NativeBalance {
+    open spec fn obeys_sub_spec() -> bool { false }
+    open spec fn sub_req(self, rhs: Coin) -> bool { true }
+    uninterp spec fn sub_spec(self, rhs: Coin) -> StdResult<NativeBalance>;
+}
+impl core::ops::Sub<Coin> for NativeBalance {
+    type Output = StdResult<NativeBalance>;
+    #[verifier::external_body]
+    fn sub(self, other: Coin) -> (r: StdResult<NativeBalance>)
+        ensures r is Ok <==> nb_sub_ok(self, seq![other]), r is Ok ==> r->Ok_0 == nb_sub(self, seq![other]),
     { unimplemented!() }
 }
 /// facts about the sequential subtraction on well-formed balances
